@@ -512,15 +512,15 @@ theorem find_eq_findParts (reg : Registry) (f : Forest) (start : Loc) (ctx : Nat
     · simp only [hp, if_false, beq_iff_eq]
       unfold prefixTree withPrefixError
       cases hb : reg.byId ctx with
-      | none => simp only [Option.bind_none, Option.map_none]
+      | none => simp only [Option.bind_none, Option.map_none]; cases f.tree? start.1 <;> rfl
       | some cm =>
         simp only [Option.bind_some]
         cases hm : reg.findModuleByPrefix cm pfx with
-        | none => simp only [Option.bind_none, Option.map_none]
+        | none => simp only [Option.bind_none, Option.map_none]; cases f.tree? start.1 <;> rfl
         | some m =>
           simp only [Option.bind_some]
           cases reg.owner m with
-          | none => simp only [Option.map_none]
+          | none => simp only [Option.map_none]; cases f.tree? start.1 <;> rfl
           | some o =>
             simp only [Option.map_some]
             cases h : f.tree? o.seq <;> simp [h]
@@ -1028,12 +1028,13 @@ theorem absent_first_abs (reg : Registry) (f : Forest) (start : Loc) (ctx : Nat)
     (splitOn_renderAbs _ hslash) (by simpa using hsel) ht]
   simp [walk_bad post (show root.getAt [] = some root from rfl) hbad]
 
-/-- A first prefix that denotes no loaded module: nothing is found and nothing changes. -/
+/-- A first prefix that denotes no loaded module: nothing is found; the failure is recorded on
+the root entry of the start tree. -/
 theorem unknown_prefix (reg : Registry) (f : Forest) (start : Loc) (ctx : Nat) (parts : List String)
     (hne : parts ≠ []) (hslash : ∀ s ∈ parts, '/' ∉ s.toList)
     (hp : (splitPrefix (parts.headD "")).1 ≠ "")
     (hsel : prefixTree reg ctx (splitPrefix (parts.headD "")).1 = none) :
-    find reg f start ctx (renderAbs parts) = (none, f) := by
+    find reg f start ctx (renderAbs parts) = (none, withPrefixError f start.1) := by
   rw [find_eq_findParts _ _ _ _ _ (renderAbs_ne parts hne hslash), splitOn_renderAbs parts hslash]
   unfold findParts
   rw [startOf_abs]
@@ -1060,24 +1061,26 @@ theorem above_root (reg : Registry) (f : Forest) (t ctx : Nat) (post : List Stri
 
 /-! ### frame -/
 
-/-- Whatever the path, the forest afterwards is the forest before with at most one tree replaced
-by a `Grown` version of itself. -/
+/-- Whatever the path, the forest afterwards is the forest before, or the forest before with one
+tree replaced by a `Grown` version of itself, or (first prefix unresolvable) the forest before
+with the failure recorded on the root of the start tree. -/
 theorem frame (reg : Registry) (f : Forest) (start : Loc) (ctx : Nat) (name : String) :
     (find reg f start ctx name).2 = f ∨
-    ∃ t root root', f.tree? t = some root ∧ Grown root root' ∧ (find reg f start ctx name).2 = f.setTree t root' := by
+    (∃ t root root', f.tree? t = some root ∧ Grown root root' ∧ (find reg f start ctx name).2 = f.setTree t root') ∨
+    ((find reg f start ctx name).1 = none ∧ (find reg f start ctx name).2 = withPrefixError f start.1) := by
   by_cases h0 : name = ""
   · left; subst h0; simp [find]
   · rw [find_eq_findParts _ _ _ _ _ h0]
     unfold findParts
     cases startOf reg start ctx (name.splitOn "/") with
-    | none => left; rfl
+    | none => right; right; exact ⟨rfl, rfl⟩
     | some r =>
       obtain ⟨t, cur, ps⟩ := r
       simp only
       cases htr : f.tree? t with
       | none => left; rfl
       | some root =>
-        right
+        right; left
         exact ⟨t, root, _, htr, walkParts_grown ps root (some cur), rfl⟩
 
 /-! ### every node has a location (the design-round spike `Tree.lean`, on the real `Entry`) -/
